@@ -250,6 +250,10 @@ func RunByz(sc ByzScenario, slot int) (out *ByzOutcome) {
 				return
 			}
 			view = NewView(w, append(w.ChainOf(base), blocks...))
+		case "planted":
+			// plant-then-serve: this peer connects only after the first Byzantine peer has relayed
+			// its (invalid) block; its view is the victim's chain plus that block (connectPlanted)
+			view = ViewOf(w, vtip)
 		case "same0":
 			// colluding peers: the same crafted fork as the first Byzantine peer
 			if len(zs) == 0 {
@@ -329,8 +333,56 @@ func RunByz(sc ByzScenario, slot int) (out *ByzOutcome) {
 	}
 	lg.add("victim tip=%s honest tip=%s", vtip, htip)
 
+	dial := func(i int, z *ScriptedPeer) {
+		var err error
+		if sc.Z[i].Dials {
+			err = z.DialTo(v.Addr())
+		} else {
+			var addr string
+			if addr, err = z.Listen(); err == nil {
+				err = v.Connect(addr)
+			}
+		}
+		if err != nil {
+			lg.add("connect %s: %v", z.Name, err)
+		} else if !z.WaitConnected(3 * time.Second) {
+			lg.add("connect %s: handshake did not complete", z.Name)
+		} else {
+			lg.add("connected %s", z.Name)
+		}
+	}
+	plantedDone := false
+	// connectPlanted: once the first peer's relayed block exists (and that peer has been dealt with),
+	// the accomplices connect and offer the victim's chain extended by exactly that block
+	connectPlanted := func() {
+		if plantedDone || len(zs) == 0 {
+			return
+		}
+		name := fmt.Sprintf("r%s%d", zs[0].Name, 1)
+		if w.ID(name) == (types.BlockID{}) {
+			name = fmt.Sprintf("r%s%d", zs[0].Name, 101)
+		}
+		if w.ID(name) == (types.BlockID{}) {
+			return
+		}
+		end := time.Now().Add(3 * time.Second)
+		for time.Now().Before(end) && zs[0].Connected() {
+			time.Sleep(20 * time.Millisecond) // the relayer is banned / dropped first
+		}
+		for i, z := range zs {
+			if sc.Z[i].View == "planted" {
+				plantedDone = true
+				z.View = ViewOf(w, name)
+				lg.add("%s offers the planted block %s (%s)", z.Name, name, w.ClassOf(name))
+				dial(i, z)
+			}
+		}
+	}
 	connectZ := func() {
 		for i, z := range zs {
+			if sc.Z[i].View == "planted" {
+				continue
+			}
 			var err error
 			if sc.Z[i].Dials {
 				err = z.DialTo(v.Addr())
@@ -359,6 +411,7 @@ func RunByz(sc ByzScenario, slot int) (out *ByzOutcome) {
 				}
 			}
 		}
+		connectPlanted()
 	}
 	connectP := func() {
 		for _, p := range ps {
@@ -470,6 +523,7 @@ func RunByz(sc ByzScenario, slot int) (out *ByzOutcome) {
 				}
 			}
 		}
+		connectPlanted()
 		zSettle(3 * time.Second)
 		time.Sleep(200 * time.Millisecond)
 		if !reached() {
@@ -564,6 +618,8 @@ func zKind(z ZSpec) string {
 	var parts []string
 	if z.View == "fork" && z.BadAt >= 0 {
 		parts = append(parts, "fork-"+z.BadKind)
+	} else if z.View == "planted" {
+		parts = append(parts, "serve-planted")
 	}
 	for _, r := range z.Rules {
 		parts = append(parts, r.RPC+"-"+r.Kind)
